@@ -34,6 +34,12 @@ pub struct SimCase {
     pub only_network: bool,
     /// build the queue by hand (SimQueue::push) instead of parse_trace
     pub hand_queue: bool,
+    /// lines of padding packets ("sp"/"rp") in the input text, which parse_trace ignores
+    #[serde(default)]
+    pub pad_lines: Vec<(u64, bool)>,
+    /// how the lines are written: 0 "t,s", 1 "t,sn", 2 "t,s,1500" (a size column)
+    #[serde(default)]
+    pub line_style: u8,
 }
 
 #[derive(Clone, Debug, PartialEq, Eq, Hash)]
@@ -69,6 +75,27 @@ pub fn trace_text(trace: &[(u64, bool)]) -> String {
     s
 }
 
+/// The input text of a case: the packets of `trace`, in the chosen line style, with the ignored
+/// padding lines merged in by time.
+pub fn case_text(c: &SimCase) -> String {
+    let mut lines: Vec<(u64, String)> = vec![];
+    for (t, sent) in &c.trace {
+        let d = match (c.line_style % 3, *sent) {
+            (1, true) => "sn",
+            (1, false) => "rn",
+            (_, true) => "s",
+            (_, false) => "r",
+        };
+        let size = if c.line_style % 3 == 2 { ",1500" } else { "" };
+        lines.push((*t, format!("{t},{d}{size}\n")));
+    }
+    for (t, sent) in &c.pad_lines {
+        lines.push((*t, format!("{t},{}\n", if *sent { "sp" } else { "rp" })));
+    }
+    lines.sort_by_key(|l| l.0);
+    lines.into_iter().map(|l| l.1).collect()
+}
+
 pub fn network(c: &SimCase) -> Network {
     Network::new(Duration::from_nanos(c.delay_ns), c.pps)
 }
@@ -96,7 +123,7 @@ pub fn build_queue(c: &SimCase) -> (SimQueue, Option<Instant>) {
         }
         (sq, Some(anchor))
     } else {
-        (parse_trace(&trace_text(&c.trace), network(c)), None)
+        (parse_trace(&case_text(c), network(c)), None)
     }
 }
 
@@ -244,6 +271,18 @@ pub fn seed() -> BoxedStrategy<u64> {
         1 => select(vec![0u64, 1, u64::MAX, u64::MAX - 1, 1u64 << 63]),
     ]
     .boxed()
+}
+
+/// ignored padding lines and the line style of the input text
+pub fn text_extras() -> BoxedStrategy<(Vec<(u64, bool)>, u8)> {
+    (
+        prop_oneof![
+            3 => Just(vec![]),
+            1 => proptest::collection::vec((0u64..3_000_000_000, any::<bool>()), 1..=6),
+        ],
+        0u8..3,
+    )
+        .boxed()
 }
 
 pub fn delay() -> BoxedStrategy<u64> {
